@@ -181,17 +181,18 @@ func checkWLStructure(w gen.WLSpec, m sepModel, pw *spg.Password) error {
 			}
 		}
 	case "script":
-		// per-gap values are an in-order subsequence of what the function returned
-		ret := m.Script.returned
-		k := 0
+		// every gap holds the value of a call of its own: the gap values are a
+		// sub-multiset of what the function returned (in which order the gaps are
+		// filled is the implementation's choice)
+		left := map[string]int{}
+		for _, v := range m.Script.returned {
+			left[v]++
+		}
 		for g, v := range gaps {
-			for k < len(ret) && ret[k] != v {
-				k++
+			if left[v] == 0 {
+				return fmt.Errorf("gap %d holds %q; the separator function returned %q - not one fresh call per gap", g, v, m.Script.returned)
 			}
-			if k == len(ret) {
-				return fmt.Errorf("gap %d holds %q; the separator function returned %q - not one fresh call per gap", g, v, ret)
-			}
-			k++
+			left[v]--
 		}
 	}
 	return nil
